@@ -58,6 +58,12 @@ ZOPE_PROJECTS = [
                                       "    @x.setter\n    def x(self, v): pass\n"
                                       "class B:\n    class y:\n        def setter(self, f): return f\n    @property\n    def y(self): pass\n    @y.setter\n    def y(self, v): pass\n"
                                       "class C:\n    @property\n    def z(self): pass\n    @z.setter\n    def z(self, v): pass\n    class z:\n        def setter(self): pass\n"},
+    # interfaces made by CALLING an InterfaceClass (no class statement), each with its own implementers
+    {"zp/__init__.py": "", "zp/i.py": "from zope.interface.interface import InterfaceClass\nfrom zope.interface import Interface\n"
+                                      "IOne = InterfaceClass('IOne')\nITwo = InterfaceClass('ITwo', (Interface,))\nclass IThree(Interface):\n    pass\n"
+                                      "class MyIC(InterfaceClass):\n    pass\nIFour = MyIC('IFour')\n",
+     "zp/impl.py": "from zope.interface import implementer\nfrom zp.i import IOne, ITwo, IThree, IFour\n@implementer(IOne)\nclass A:\n    pass\n@implementer(ITwo)\nclass B:\n    pass\n"
+                   "@implementer(IThree, IFour)\nclass C:\n    pass\n"},
     # hierarchies Python rejects (no consistent order): the order pydoctor falls back to still names each class once
     {"zp/__init__.py": "", "zp/h.py": "class A: pass\nclass B(A): pass\nclass C(A, B): pass\nclass D(C): pass\n"
                                       "class X(A, B): pass\nclass Y(B, A): pass\nclass Z(X, Y): pass\nclass W(Z, A): pass\n",
